@@ -155,6 +155,8 @@ def execute(case, chooser, fault=None):
         if fault and fault["dev"] == "out":
             plan = world.FaultPlan(fault["k"], fault["mode"], factory_for(fault["exc"]))
         stdout = world.VStdout(term=None, isatty=True, plan=plan, record=False)
+        fd = case.get("fd", world.STDOUT_FD)
+        stdout.fileno = lambda: fd        # descriptor number of sys.stdout: 0 and 1 are as valid as any other
         clock = world.VClock(stdout)
     world.install(tty, stdout, clock)
     if case.get("timeout_cfg"):
@@ -407,8 +409,9 @@ def build_cases(tier):
         for frames in (1, 2):
             for hc in (True, False):
                 for cls in (("FinTextR",) if quick else ("FinTextR", "FinClearR")):
-                    add(dict(op="draw", attrs=at, frames=frames, hide_cursor=hc, cls=cls, excs=excs,
-                             out_excs=base_excs if quick else base_excs + ["BrokenPipeError"]))
+                    for fd in (world.STDOUT_FD, 0, 1):
+                        add(dict(op="draw", attrs=at, frames=frames, hide_cursor=hc, cls=cls, excs=excs, fd=fd,
+                                 out_excs=base_excs if quick else base_excs + ["BrokenPipeError"]))
     return cases
 
 
@@ -460,7 +463,7 @@ def run(ctx):
         operations=["query_terminal(more: until-c/stop-after-2/raise@1/raise@3/always-true; timeout None/0.05)",
                     "read_tty(timeout None/0/0.05/-1 x min 0/1/3 x echo x more default/stop-after-2/raise@1/raise@2 x input)",
                     "read_tty_all", "get_cell_size (16t / 14t fallback)", "get_fg_bg_colors", "get_terminal_name_version",
-                    "KittyImage.is_supported", "Renderable.draw(echo_input=False) static/animated x hide_cursor, the renderable's "
+                    "KittyImage.is_supported", "Renderable.draw(echo_input=False) static/animated x hide_cursor x sys.stdout.fileno() in {101, 0, 1}, the renderable's "
                     "_finalize_render_data_ hook being a fault point"],
         fault_modes=["instead", "after"],
         exceptions=["KeyboardInterrupt", "SystemExit", "SignalAbort(BaseException)", "OSError"] if quick else
